@@ -244,4 +244,13 @@ def statements(ctx, ngen):
     rnd = ctx.rng("stmts")
     out += [("common_parser", s) for s in gens.statements(rnd, ngen)]
     out += [(p, s) for p in ("mysql_parser", "sqlserver_parser", "bigquery_parser") for s in gens.statements(rnd, max(5, ngen // 20))]
+    # scripts that the DELIMITER pre-pass cuts into several chunks (each chunk is parsed and scrubbed on its own), with NULLs and calls in every chunk
+    chunks = ["update t set a = null where b = 1", "select f(null), g(a, null) from t", "select a from t where b in (1, null, 3)", "insert into t (a, b) values (1, null)",
+              "select coalesce(a, null) as x from t", "select a from t"]
+    for d in ("$$", "//"):
+        for _ in range(max(4, ngen // 60)):
+            k = rnd.randint(2, 4)
+            body = "".join("%s%s\n" % (rnd.choice(chunks), d) for _ in range(k))
+            out.append((rnd.choice(["common_parser", "mysql_parser"]), "DELIMITER %s\n%sDELIMITER ;" % (d, body)))
+            out.append(("common_parser", "select null as z;\nDELIMITER %s\n%s" % (d, body)))
     return out
